@@ -33,7 +33,7 @@ ZeroBranch(F) == IF F.kind = "obj" THEN Nil ELSE Sc(ZeroScalar(F.cls))
 SrcVal(F, obj) ==
   IF F.placeholder THEN Sc("false")
   ELSE IF F.oneof # "" THEN
-     LET h == GetPath(obj, <<F.oneof>>)
+     LET h == GetPath(obj, F.opath)
      IN IF h.t = "one" /\ h.b = F.name THEN h.w ELSE ZeroBranch(F)
   ELSE GetPath(obj, F.gopath)
 
